@@ -131,6 +131,11 @@ func (o *Options) populateGlobals(c *cli.Context) error {
 			return err
 		}
 		o.GlobalConfig.Now = now
+	} else {
+		// the current date is a calendar day, as with --today: the day of the clock (or of the configured Now) in its own zone,
+		// at the midnight the headings of the log are dated at
+		y, m, d := o.GlobalConfig.Now.Date()
+		o.GlobalConfig.Now = time.Date(y, m, d, 0, 0, 0, 0, time.UTC)
 	}
 	return nil
 }
